@@ -12,6 +12,9 @@ for sid in sorted(res):
     except Exception:
         meta = {}
     summ = re.sub(r"\s+", " ", str(meta.get("summary", "")))[:150].replace("|", "/")
+    if "retired" in r or meta.get("retired"):
+        print("| %s | %s | - | retired | %s |" % (sid, summ, re.sub(r"\s+", " ", str(meta.get("retired") or r.get("retired")))[:160].replace("|", "/")))
+        continue
     if "error" in r:
         print("| %s | %s | - | %s | |" % (sid, summ, r["error"][:60]))
         continue
